@@ -150,6 +150,17 @@ class Folder:
                 ast.LtE: lambda: a <= b, ast.Gt: lambda: a > b, ast.GtE: lambda: a >= b,
                 ast.In: lambda: a in b, ast.NotIn: lambda: a not in b,
             }.get(type(op), lambda: Unknown)()
+        if isinstance(n, ast.BoolOp):
+            last = Unknown
+            for v in n.values:
+                last = self._f(v)
+                if last is Unknown:
+                    return Unknown
+                if isinstance(n.op, ast.And) and not last:
+                    return last
+                if isinstance(n.op, ast.Or) and last:
+                    return last
+            return last
         if isinstance(n, ast.IfExp):
             t = self._f(n.test)
             if t is Unknown:
@@ -230,7 +241,7 @@ class Folder:
             if recv is Unknown:
                 return Unknown
             if isinstance(recv, (str, bytes)) and f.attr in (
-                "encode", "decode", "lower", "upper", "split", "join", "strip", "hex", "format",
+                "encode", "decode", "lower", "upper", "split", "join", "strip", "hex", "format", "startswith", "endswith", "replace", "count", "find", "index",
             ):
                 try:
                     return getattr(recv, f.attr)(*args)
